@@ -110,6 +110,12 @@ func optOf(tok, jail string, ctx context.Context) gtree.Option {
 
 var sharedExtsDup = []string{".x", ".y", ".x"}
 
+// the errors the calls of this process returned (a caller may keep an error value and look at it later)
+var (
+	heldMu   sync.Mutex
+	heldErrs []error
+)
+
 var (
 	sharedMassiveOnce sync.Once
 	sharedMassiveOpt  gtree.Option
@@ -364,10 +370,22 @@ func handleReq(rq wproto.Req) (rp wproto.Rep) {
 
 // handleOne serves one request; alone tells whether it is the only one running (process-wide settings allowed)
 func handleOne(rq wproto.Req, alone bool) (rp wproto.Rep) {
-	var buf bytes.Buffer
+	var buf, cbuf bytes.Buffer
+	// fw is the sink of the operation: the writer handed to Output*, or - for Mkdir, which takes no writer - the colour
+	// package's process-wide writer, where its dry-run report goes by design.  cw is color.Output for the operations
+	// that were GIVEN a writer: nothing may arrive there (reported as Stray).
 	fw := &faultWriter{buf: &buf, fault: rq.WFault, yield: rq.Yield, e: wrapErr(errWriter, rq.ErrWrap)}
+	cw := &faultWriter{buf: &cbuf}
 	if alone {
-		color.Output = fw
+		if rq.Op == "mkdir" {
+			color.Output = fw
+		} else {
+			color.Output = cw
+		}
+		if rq.Color {
+			color.NoColor = false
+			defer func() { color.NoColor = true }()
+		}
 	}
 	opts := reqOpts(rq)
 	if rq.Procs > 0 {
@@ -612,6 +630,21 @@ func handleOne(rq wproto.Req, alone bool) (rp wproto.Rep) {
 	fw.mu.Lock() // a spreader goroutine may still be inside a Write when the call has returned an error
 	rp.Class, rp.Out, rp.Err = o.Class(), buf.String(), o.ErrString()
 	fw.mu.Unlock()
+	heldMu.Lock()
+	for _, e := range heldErrs {
+		if e == nil {
+			rp.Held = append(rp.Held, "")
+		} else {
+			rp.Held = append(rp.Held, e.Error())
+		}
+	}
+	if o.Err != nil {
+		rp.RawErr = o.Err.Error()
+	}
+	if len(heldErrs) < 8 {
+		heldErrs = append(heldErrs, o.Err)
+	}
+	heldMu.Unlock()
 	rp.ElapsedUs = time.Since(start).Microseconds()
 	rp.IsReaderErr = o.Err != nil && errors.Is(o.Err, errReader)
 	rp.IsCtxErr = o.Err != nil && errors.Is(o.Err, context.Canceled)
@@ -621,6 +654,11 @@ func handleOne(rq wproto.Req, alone bool) (rp wproto.Rep) {
 	fw.mu.Lock()
 	rp.WCalls, rp.WRefused, rp.WSizes = fw.calls, fw.refused, fw.sizes
 	fw.mu.Unlock()
+	if alone {
+		cw.mu.Lock()
+		rp.Stray = cw.buf.String()
+		cw.mu.Unlock()
+	}
 	if o.Panic != "" {
 		rp.Err = firstLine(o.Panic)
 	}
